@@ -244,7 +244,7 @@ func (x *c09) rootsRange(m *mcontract, off, n uint64) error {
 	res := x.R.SectorRoots(m.view(), x.Prices, off, n, rhpx.Script{}, nil)
 	if res.Infra != nil {
 		x.cs.Inconclusive("watchdog")
-		return errInfra
+		return errInconclusive
 	}
 	valid := n > 0 && off+n <= uint64(len(m.Roots))
 	if !res.Done {
